@@ -222,6 +222,34 @@ func pairsScenario(c pcfg) *mcx.Scenario {
 						fail("pairs/order", "connection %v handled %v out of arrival order", cc.RemoteAddr(), seq)
 					}
 				}
+				// every connection is closed by the application: after the next housekeeping tick the server's table
+				// holds nothing for them any more, and a peer that comes back is served by a new connection
+				closed := map[*client.Conn]bool{}
+				for _, cc := range implConn {
+					if cc != nil && !closed[cc] {
+						closed[cc] = true
+						_ = cc.Close()
+					}
+				}
+				vrt.Quiesce("env: connections closed")
+				if u.Tick != nil {
+					u.Tick(vrt.Now())
+					vrt.Quiesce("env: tick after close")
+				}
+				if n, _, _ := u.S.VerifSizes(); n != 0 {
+					fail("pairs/closed-connections-retained", "after all %d connections were closed and a housekeeping tick ran, the server's connection table still holds %d entries", len(closed), n)
+				}
+				if len(closed) > 0 {
+					mid++
+					u.SendDst(P, X, srvw.EncodeUDP(message.Message{Type: message.Confirmable, Code: codes.POST, MessageID: mid, Token: message.Token{0x7F},
+						Options: message.Options{{ID: message.URIPath, Value: []byte("echo")}}, Payload: []byte("after-close")}))
+					vrt.Quiesce("env: request after close")
+					if implConn["after-close"] == nil {
+						fail("pairs/peer-not-served-after-close", "a request of a peer whose earlier connection had been closed was not handled")
+					} else if closed[implConn["after-close"]] {
+						fail("pairs/closed-connection-reused", "a request was handled by a connection that had been closed")
+					}
+				}
 				u.S.Stop()
 				vrt.Quiesce("env: stopped")
 			})
